@@ -234,6 +234,7 @@ def typing_task(task):
     counts = [0, 0]  # inspected values, distinct python types
     types = set()
     mon = _monitor()
+    checked0 = mon.checked
 
     def make_ctx():
         ctx = m.Context(time_limit=10, memory_limit=50000000)
@@ -318,7 +319,7 @@ def typing_task(task):
                     pass
             if seen:
                 findings.append({"program": src[:600], "python_types": sorted(set(seen))})
-    return (findings, counts[0], sorted(types), mon.checked if mon.available else -1)
+    return (findings, counts[0], sorted(types), (mon.checked - checked0) if mon.available else -1)
 
 
 _MON = []
@@ -660,14 +661,29 @@ def main(chk):
     chk.extra["generated_programs"] = len(gen)
     progs = progs + gen
     tasks += [("programs", b) for b in pool.chunks(progs, 12)]
-    res = pool.run(typing_task, tasks, timeout=1200)
+    # Workers get 2 GiB of address space: a built-in asked for a huge result (repeat / padStart / Array(n) ...)
+    # then fails inside the worker with MemoryError (a host exception: C04's business, not a typing question)
+    # instead of taking the machine's memory.  A batch whose worker is killed or hangs all the same is re-run
+    # item by item; an item that still kills its worker is counted as a resource exclusion, never as a violation
+    # (the kill comes from outside the engine: C01 / C02 / C04 judge time and memory).
+    TYPING_MEM = 2 << 30
+    res = pool.run(typing_task, tasks, timeout=1200, mem_bytes=TYPING_MEM)
+    redo = [(kind, [it]) for (kind, items), r in zip(tasks, res) if isinstance(r, (pool.HANG, pool.CRASH)) for it in items]
+    if redo:
+        tasks = [t for t, r in zip(tasks, res) if not isinstance(r, (pool.HANG, pool.CRASH))] + redo
+        res = [r for r in res if not isinstance(r, (pool.HANG, pool.CRASH))] + pool.run(typing_task, redo, timeout=300, nproc=6, mem_bytes=TYPING_MEM)
+        chk.extra["typing_items_rerun_singly"] = len(redo)
     inspected = 0
     stack_checked = 0
     monitor_ok = True
     pytypes = set()
     for (kind, items), r in zip(tasks, res):
         if isinstance(r, (pool.HANG, pool.CRASH)):
-            chk.violation("typing|%r" % r, {"sub": "typing", "kind": kind}, None, repr(r), sub="typing")
+            chk.count()
+            chk.excluded["resource: the worker evaluating this item was killed or did not return (%s)" % ("hang" if isinstance(r, pool.HANG) else "crash")] += 1
+            if len(chk.extra.setdefault("typing_resource_items", [])) < 10:
+                it = items[0]
+                chk.extra["typing_resource_items"].append((it if isinstance(it, str) else it[0])[:200])
             continue
         findings, n, types, stackn = r
         stack_checked += max(stackn, 0)
